@@ -143,8 +143,8 @@ def r1_template(ctx, chk, rule="C11.1"):
     seen_brace = False
     for loops, cond, t in ws:
         cond = _no_exception(cond)
-        if not seen_brace and is_const(t) and isinstance(t[1], str) and t[1].lstrip().startswith("{"):
-            seen_brace = True
+        if not seen_brace and ((is_const(t) and isinstance(t[1], str) and t[1].lstrip().startswith("{")) or (not loops and is_game_expr(t))):
+            seen_brace = True           # the dictionary starts here (at the latest with the first game that is written)
         if cond != TRUE:
             if seen_brace:
                 chk.undecided(rule, f.where(), "a write of the dictionary is conditional: %s" % show(cond))
